@@ -94,7 +94,15 @@ def oracle(line, impl_line):
     recs, tail = parse_records(wlog)
     if tail != "clean":
         return "transport log is not a sequence of complete records"
-    ends = [r for r in recs if r[0] == END and r[1] == rid]
+    all_end = [r for r in recs if r[0] == END and r[1] == rid]
+    stripped = C07.strip_replies(cfg, segs, recs)
+    if stripped is None:
+        return None
+    ends = [r for r in stripped if r[0] == END and r[1] == rid]
+    if aid == rid and in_params:
+        ends = all_end[:1] if all_end and all_end[0][2][:5] == [0, 0, 0, 0, 0] else []
+        if len([r for r in stripped if r[0] == END and r[1] == rid and (len(segs) == 1)]) > 0:
+            return "an epilogue was written for a request aborted during Params"
     if aid != rid:
         # foreign abort: ignored; the request completes normally if it is complete
         return True if (not pe or len(ends) <= 1) else "more than one EndRequest for the request"
@@ -102,7 +110,7 @@ def oracle(line, impl_line):
         if inv and inv[0]["hdr"][0] == role and len(segs) == 1:
             return "handler invoked although the request was aborted during Params"
         if len(ends) != 1:
-            return "%d EndRequest records for the request aborted during Params, expected exactly 1" % len(ends)
+            return "no EndRequest(RequestComplete, 0) for the request aborted during Params"
         body = ends[0][2]
         if body[:5] != [0, 0, 0, 0, 0]:
             return "EndRequest for an abort during Params must be RequestComplete with application status 0"
